@@ -114,16 +114,27 @@ pub fn poly_case(out: &mut Out, rng: &mut Rng, p: &PolyIn, exact: bool) {
       for v in &p.verts { if hav(*v, (a, b)) > c * (1.0 + 1e-9) + 1e-15 { out.violation("C12:bounding-cone", format!("vertices={:?}", p.verts), format!("vertex {:?} within the radius {:e}", v, c), format!("{:e}", hav(*v, (a, b)))); break; } }
     }
   }
-  let mut req = format!("polygon {} {}", p.depth, p.verts.len());
+  if exact {
+    // the special points of every edge, as computed by the exact mode (private module: through the verification hook)
+    let nv = p.verts.len();
+    for k in 0..nv {
+      let a = p.verts[(k + nv - 1) % nv]; let b = p.verts[k];
+      let sp = catch(|| cdshealpix::verif_hooks::arc_special_points(a.0, a.1, b.0, b.1, 1.0e-14, 20));
+      out.rec(&format!("asp {} {} {} {} {} 20", fbits(a.0), fbits(a.1), fbits(b.0), fbits(b.1), fbits(1.0e-14)),
+              &match sp { None => "panic".into(), Some(v) => if v.is_empty() { "-".into() } else { v.iter().map(|q| format!("{} {}", fbits(q.0), fbits(q.1))).collect::<Vec<_>>().join(" ") } });
+      out.stat("C12:arc_special_points");
+    }
+  }
+  let mut req = format!("{} {} {}", if exact { "polygonx" } else { "polygon" }, p.depth, p.verts.len());
   for v in &p.verts { req.push_str(&format!(" {} {}", fbits(v.0), fbits(v.1))); }
   out.evaluations += 1;
   out.stat(&format!("C12:{}:{}:{}", if p.convex { "convex" } else { "star" }, p.class, if exact { "exact" } else { "approx" }));
   let inp = format!("depth={} exact={} convex={} centre=({}, {}) rho={:e} vertices={:?}", p.depth, exact, p.convex, p.centre.0, p.centre.1, p.rho, p.verts);
   let m = match res {
-    None => { if !exact { out.rec(&req, "panic"); } let tag = if cfg!(debug_assertions) { ":debug" } else { "" };
+    None => { out.rec(&req, "panic"); let tag = if cfg!(debug_assertions) { ":debug" } else { "" };
       let tiny = if p.rho < 1e-7 { ":polygon-below-1e-7-rad" } else { "" };
       out.violation(&format!("C12:panic{}:{}{}", tag, last_panic_site(), tiny), inp, "a BMOC".into(), "panic".into()); return; }
-    Some(m) => { if !exact { out.rec(&req, &bmoc_line(&m)); } m }
+    Some(m) => { out.rec(&req, &bmoc_line(&m)); m }
   };
   if let Err(e) = wf_raw(m.get_depth_max(), &m.entries) { out.violation("C12:not-wf", inp, "well-formed BMOC".into(), e); return; }
   let cover = Cover::new(&m).unwrap();
